@@ -46,6 +46,7 @@ func main() {
 	only := flag.String("rule", "", "only report obligations whose rule id has this prefix (replay)")
 	verbose := flag.Bool("v", false, "print every obligation")
 	dump := flag.String("dump", "", "debug: dump SSA of pkgrel:Func[,..]")
+	snapAnchors := flag.String("snapshot-anchors", "", "write the anchor snapshot (names, signatures, field types of the repository) to this file and exit")
 	cfgName := flag.String("cfg", "", "internal: analyse under an alternative build configuration (tags|windows|386)")
 	overlay := flag.String("overlay", "", "internal: JSON file {abs path: content} analysed instead of the files on disk")
 	flag.Parse()
@@ -59,6 +60,17 @@ func main() {
 	seed := 0
 	if s := os.Getenv("VERIF_SEED"); s != "" {
 		seed, _ = strconv.Atoi(s)
+	}
+	if *snapAnchors != "" {
+		p, err := core.Load(*root)
+		if err == nil {
+			err = p.WriteAnchorSnapshot(*snapAnchors)
+		}
+		if err != nil {
+			fmt.Fprintf(os.Stderr, "CHECKER-BROKEN: %v\n", err)
+			os.Exit(2)
+		}
+		return
 	}
 	if *prop == "" {
 		fmt.Fprintln(os.Stderr, "usage: verifcheck -prop Cxx [-tier quick|thorough]")
@@ -114,6 +126,7 @@ func main() {
 		fmt.Fprintf(os.Stderr, "CHECKER-BROKEN: %v\n", err)
 		os.Exit(2)
 	}
+	core.IsNewFunc = p.IsNewSinceSnapshot
 	kf := loadKnown(*known)
 	exit := 0
 	for _, id := range props {
@@ -257,6 +270,7 @@ func runProp(p *core.Prog, id, tier string, seed int, outDir string, kf []knownF
 			"known_findings_hit":  len(knownHit),
 			"notes":               ctx.Notes,
 			"load_errors_tolerated": p.Tolerated,
+			"anchors_renamed":       p.Renamed,
 			"all_obligations":     allObls,
 			"checker_cmd":         fmt.Sprintf("/verif/bin/verifcheck -prop %s -tier %s", id, tier),
 			"not_decided":         pack.NotDecided,
